@@ -12,3 +12,10 @@ claim("C09",
       "downsample/upsample for all extents, shifts, factors and element values (rank is the only structural bound).",
       "Assumes the numpy basic-slicing/reshape/roll/zeros contracts stated in pyvc/snp.py, integers mathematical, rank <= 3.",
       "contract-based deductive verification (symbolic execution of the real AST to VCs, z3/cvc5)")
+
+claim("C20",
+      "trap_grad and min_trap_grad are executed symbolically on real-valued area/gmax/dgdt/dt (all positive): start/end zero, exact "
+      "area (total resp. flat top), amplitude <= gmax and slew <= dgdt*dt are proved for every sample index through lemma chains "
+      "(peak bound, samples within peak, step bound); definedness of every division / max is an obligation. spokes_grad only bounded.",
+      "Floats as reals; numpy linspace/ones/concatenate/sum/max closed forms assumed; spokes_grad covered by the bounded native probe only.",
+      "contract-based deductive verification (symbolic execution of the real AST to nonlinear real/integer VCs, z3 incl. nlsat on the integer-relaxed VC)")
